@@ -171,6 +171,7 @@ func runC16(c *Ctx) error {
 	Parallel(len(maximal), func(ri int) {
 		r := heapRuns[ri]
 		cells := map[int]*message.Message{}
+		viaCopy := map[int]bool{} // cells produced by Copy(): they own a (writable) metadata map whatever the original looked like
 		obs := func() {
 			for i := 1; i <= 3; i++ {
 				if m := cells[i]; m != nil {
@@ -200,12 +201,14 @@ func runC16(c *Ctx) error {
 						}
 					}
 					cells[o.i] = m
+					viaCopy[o.i] = false
 					r.Emit("new", "i", o.i, "val", c16Project(m))
 				case "copy":
 					cells[o.j] = cells[o.i].Copy()
+					viaCopy[o.j] = true
 					r.Emit("copy", "i", o.i, "j", o.j)
 				case "setmeta":
-					if cells[o.i].Metadata == nil {
+					if cells[o.i].Metadata == nil && !viaCopy[o.i] {
 						cells[o.i].Metadata = message.Metadata{} // the owner of a zero-value message initialises its map itself
 					}
 					cells[o.i].Metadata.Set(o.k, o.x)
